@@ -336,6 +336,7 @@ def run(ctx):
     ctx.do(rule_path_step_kinds)
     ctx.do(rule_path_text_tokenised)
     ctx.do(rule_string_only_operators)
+    ctx.do(rule_no_order_on_printed_text)
     # building an expression leaves its operands as they were (an operand can be used in several expressions)
     from .pitfalls import rule_no_alias_then_mutate
 
@@ -1177,3 +1178,32 @@ def rule_string_only_operators(ctx):
               function=fi.qualname, expected="isinstance(rhs, str) and operator in %s -> StringConstant(rhs)" % sorted(ops),
               found=short(guesses[0]))
     run.floor(R, 1)
+
+
+def rule_no_order_on_printed_text(ctx):
+    """A model class refuses an argument only for what it IS, never by ordering the PRINTED form of constants: timestamps of
+    different fraction lengths do not sort as text ('...00Z' > '...00.5Z' because 'Z' > '.'), so `str(stop) <= str(start)`
+    refuses valid intervals inside one second -- a valid pattern cannot be parsed into the model.  No ordering comparison in
+    stix2/patterns.py has a str() / '%s' rendering on both sides."""
+    run = ctx.run
+    prog = ctx.prog
+    R = "C10.operand-kinds"
+    n = 0
+
+    def printed(e):
+        return (isinstance(e, ast.Call) and call_simple_name(e) in ("str", "repr", "format")) or \
+            (isinstance(e, ast.BinOp) and isinstance(e.op, ast.Mod) and isinstance(e.left, ast.Constant) and isinstance(e.left.value, str)) or \
+            isinstance(e, ast.JoinedStr)
+    for fi in sorted(prog.functions.values(), key=lambda f: f.id):
+        if fi.module.name != PAT:
+            continue
+        n += 1
+        for c in body_walk(fi.node):
+            if isinstance(c, ast.Compare) and len(c.ops) == 1 and isinstance(c.ops[0], (ast.Lt, ast.LtE, ast.Gt, ast.GtE)) \
+                    and printed(c.left) and printed(c.comparators[0]):
+                run.violation(R, key(fi.module.relpath, fi.qualname, "order-on-printed-text"),
+                              "two constants are ordered by their printed text: timestamp literals of different fraction lengths do "
+                              "not sort as text (\"...00Z\" > \"...00.5Z\"), so a valid START/STOP interval within one second is refused",
+                              file=fi.module.relpath, line=c.lineno, function=fi.qualname,
+                              expected="comparison of the parsed instants (or none: the grammar does not order them)", found=short(c))
+    run.ok(R, key("stix2/patterns.py", "<module>", "no-order-on-printed-text"), "%d functions examined" % n)
